@@ -45,3 +45,19 @@ Fixpoint n_range (k : nat) : list N :=
   end.
 Definition var_handles_collision_free (n : nat) : bool :=
   nodup_N (map handle_from_u32 (n_range n)).
+
+(* the same conditions stated on the module tree itself: every card of every function of M and of its
+   submodules satisfies P.  [module_in_range M] = integer / float literals fit i64 / 64 bits and the
+   strings copied into the data section are valid UTF-8; it implies program_in_range M o and
+   program_utf8 M o for every o (CompilerFlatten.module_in_range_program). *)
+Fixpoint module_all (P : card -> bool) (m : module) : bool :=
+  match m with
+  | Module subs funs _ =>
+      forallb (fun nf => forallb P (f_cards (snd nf))) funs &&
+      (fix go (l : list (str * module)) : bool :=
+         match l with
+         | [] => true
+         | (_, sub) :: r => module_all P sub && go r
+         end) subs
+  end.
+Definition module_in_range (M : module) : bool := module_all card_rng M && module_all card_utf8 M.
